@@ -379,3 +379,9 @@ func (c *Ctx) ruleText(id string) string {
 	}
 	return ""
 }
+
+// VerifRoot is the directory of the verification machinery (tables/, mutants/, ...), set by main.
+var VerifRoot = "/verif"
+
+// VerifDir returns the directory that holds the frozen tables.
+func (c *Ctx) VerifDir() string { return VerifRoot }
